@@ -218,6 +218,9 @@ class Tracer:
             tags = frozenset(t for t in prov if t[0] == "read")
             if not tags:
                 return None
+            if kw.get("index") is not None:
+                # `block[i]` with a symbolic index: same evidence as `block.get(i)`
+                self.gets.append({"tags": tags, "index": kw["index"], "index_is_loop_counter": self.I_keys(I, kw["index"]), "state": kw["state"].copy()})
             skip = sum(t[1] for t in prov if t[0] == "skip")
             if isinstance(v, Scalar):
                 self.symtag[v.sym] = (tags, skip, kw["off"])
